@@ -1,8 +1,8 @@
 (* C21 — The compiler never panics on adversarial input; excessive depth produces recursion-limit
    diagnostics; diagnostic lists come out sorted.
 
-   What is proved here is about the guard mechanisms of validation/mod.rs, the seven guarded traversals
-   and DiagnosticList::sort as modelled in Valid/Guards.v, for EVERY graph (look-up function: finite or not,
+   What is proved here is about the guard mechanisms of validation/mod.rs, the guarded traversals
+   (including, since its repair, the recursion of validate_selection_set) and DiagnosticList::sort as modelled in Valid/Guards.v, for EVERY graph (look-up function: finite or not,
    cyclic or not) and EVERY limit.  The statement "no unwrap / index / expect anywhere in the compiler can
    fire" has no model: it is only exercised by the pipeline family of the tie (strength: partial).
 
@@ -21,11 +21,24 @@
    - At the level of a whole document the limit error of the three @defer walks used to be discarded by
      their caller (former finding defer_walk_limit_swallowed, repaired in the code): validate_defer now
      reports it, C21_defer_limit_reported; the behaviour before the repair is kept as gd_doc_walk_obs_old with
-     its witness, C21_defer_limit_swallowed_old_refuted. *)
+     its witness, C21_defer_limit_swallowed_old_refuted.
+   - validate_selection_set / validate_field / validate_inline_fragment / validate_fragment_spread /
+     validate_fragment_definition used to recurse without any guard (former finding
+     selection_set_recursion_unguarded: (fragments on a spread path) x (nesting of each definition) native
+     frames, stack overflow); the code now threads a DepthGuard with limit 500 through that recursion and
+     reports RecursionError: C21_guard_depth_selection_validation (limit + 1 nested activations for every
+     document, fragment table and schema), C21_selection_limit_reported; the recursion before the repair is
+     kept as gd_vss (Valid/Unguarded.v) with its witness, C21_selection_depth_unguarded_old_refuted.
+   - detect_fragment_cycles used to call itself for every field and inline fragment too, so that its native
+     depth was (fragments on the path) x (nesting of each definition) although its guard bounds the fragments
+     (former finding fragment_cycles_recursion_unguarded, stack overflow); it now loops over an explicit-stack
+     iterator and calls itself only to follow a spread: the activations bounded by
+     C21_guard_depth_fragments are now all of its native recursion, and the iterator yields the sequence of
+     spreads the model works on, C21_fragment_spreads_iterated. *)
 From Coq Require Import Sorting.Sorted Sorting.Permutation.
 From ApolloVerif Require Import Base.Chars Ast.Ast Schema.Model Valid.Guards Valid.GuardsProofs
      Valid.SortProofs Valid.GuardsExamples Valid.CycleExact Valid.DeepChain Valid.Unguarded Valid.WalkExact
-     Valid.DeferReport.
+     Valid.DeferReport Valid.SelWalkProofs Valid.SpreadIter.
 
 (* ---- guarded traversals: termination within limit + 1 activations, fuel independence, no truncation *)
 
@@ -74,6 +87,26 @@ Check C21_guard_depth_directives : forall find_dir find_type limit fuel name ite
     gd_verdict_of (gd_dir_check_with limit' (gd_dir_fuel_of limit) find_dir find_type name items) = gd_verdict_of r.
 Print Assumptions C21_guard_depth_directives.
 
+(* nested_fragment_spreads, the explicit-stack iterator detect_fragment_cycles loops over (the only other loop
+   of that function since its repair: it recurses natively only where gd_frag_loop calls `rec`): for every stack
+   of pending selection lists it terminates (one turn per selection, push and pop) and yields the fragment
+   spreads in document order, i.e. the list gd_spreads on which gd_frag_check is defined *)
+Theorem C21_fragment_spreads_iterated :
+  (forall fuel stack, (si_stack stack < fuel)%nat ->
+     gd_spread_iter fuel stack = Some (flat_map gd_spreads stack)) /\
+  (forall sels, gd_spread_iter (S (S (si_list sels))) [sels] = Some (gd_spreads sels)).
+Proof. split; [exact spread_iter_spreads|exact spread_iter_top]. Qed.
+Check C21_fragment_spreads_iterated :
+  (forall fuel stack, (si_stack stack < fuel)%nat ->
+     gd_spread_iter fuel stack = Some (flat_map gd_spreads stack)) /\
+  (forall sels, gd_spread_iter (S (S (si_list sels))) [sels] = Some (gd_spreads sels)).
+Print Assumptions C21_fragment_spreads_iterated.
+
+Example C21_fragment_spreads_iterated_nonvacuous :
+  gd_spread_iter 20 [[SField None [97] [] [] [SSpread [65] []; SInline None [] [SSpread [66] []]]; SSpread [67] []]]
+  = Some [[65]; [66]; [67]].
+Proof. vm_compute. reflexivity. Qed.
+
 (* walk_selections, walk_selections_with_deduped_fragments, walk_defers_in_selection_set,
    forbid_defer_on_root, forbid_unconditional_defer are the modes of gd_walk *)
 Theorem C21_guard_depth_walks : forall frags m limit fuel sels,
@@ -90,6 +123,26 @@ Check C21_guard_depth_walks : forall frags m limit fuel sels,
   forall limit' c s, (limit <= limit')%N -> snd r = GrOk (c, s) ->
     exists c', gd_walk_top_with limit' (gd_fuel_of limit) frags m sels = (fst r, GrOk (c', s)).
 Print Assumptions C21_guard_depth_walks.
+
+(* validate_selection_set and its callees (selection.rs, field.rs, fragment.rs), for every fragment table
+   (cyclic or not), every verdict of the cycle check, every schema (or none) and every limit: limit + 1 nested
+   activations of validate_nested_selection_set suffice (at most two other frames lie between two of them, so
+   the native depth of this recursion is at most 3 * (limit + 1)), more fuel changes nothing, and a walk that
+   is not stopped by the limit is the walk under every larger limit *)
+Theorem C21_guard_depth_selection_validation : forall frags cycles_ok ty limit fuel against sels,
+  (fuel >= gd_fuel_of limit)%nat ->
+  let r := vs_top_with limit (gd_fuel_of limit) frags cycles_ok ty against sels in
+  vs_top_with limit fuel frags cycles_ok ty against sels = r /\ snd r <> GrFuel /\ snd r <> GrPanic /\
+  forall limit' c s, (limit <= limit')%N -> snd r = GrOk (c, s) ->
+    exists c', vs_top_with limit' (gd_fuel_of limit) frags cycles_ok ty against sels = (fst r, GrOk (c', s)).
+Proof. exact vs_walk_depth. Qed.
+Check C21_guard_depth_selection_validation : forall frags cycles_ok ty limit fuel against sels,
+  (fuel >= gd_fuel_of limit)%nat ->
+  let r := vs_top_with limit (gd_fuel_of limit) frags cycles_ok ty against sels in
+  vs_top_with limit fuel frags cycles_ok ty against sels = r /\ snd r <> GrFuel /\ snd r <> GrPanic /\
+  forall limit' c s, (limit <= limit')%N -> snd r = GrOk (c, s) ->
+    exists c', vs_top_with limit' (gd_fuel_of limit) frags cycles_ok ty against sels = (fst r, GrOk (c', s)).
+Print Assumptions C21_guard_depth_selection_validation.
 
 (* FieldsInSetCanMerge::validate_operation: never Panic (LimitTracker::decrement does not underflow), never
    out of fuel; RecursionLimitError is pushed iff the high-water mark exceeded the limit; if it is not
@@ -285,75 +338,99 @@ Print Assumptions C21_key_order.
    whenever one of its walks (walk_defers_in_selection_set over every operation and fragment definition,
    forbid_defer_on_root, forbid_unconditional_defer) ends with the limit error, the diagnostics of the
    document contain a RecursionError, for EVERY document *)
-Theorem C21_defer_limit_reported : forall d : document,
-  gwo_defer_truncated (gd_doc_walk_obs d) = true -> (1 <= gwo_recursion (gd_doc_walk_obs d))%N.
+Theorem C21_defer_limit_reported : forall (ty : vs_typing) (d : document),
+  gwo_defer_truncated (gd_doc_walk_obs ty d) = true -> (1 <= gwo_recursion (gd_doc_walk_obs ty d))%N.
 Proof. exact defer_limit_reported. Qed.
-Check C21_defer_limit_reported : forall d : document,
-  gwo_defer_truncated (gd_doc_walk_obs d) = true -> (1 <= gwo_recursion (gd_doc_walk_obs d))%N.
+Check C21_defer_limit_reported : forall (ty : vs_typing) (d : document),
+  gwo_defer_truncated (gd_doc_walk_obs ty d) = true -> (1 <= gwo_recursion (gd_doc_walk_obs ty d))%N.
 Print Assumptions C21_defer_limit_reported.
 
 (* the repair of validate_defer adds that diagnostic (once, and only to a list without a recursion-limit
-   diagnostic) and changes nothing else of what the guarded walks report *)
-Theorem C21_defer_repair_conservative : forall d : document,
-  let o := gd_doc_walk_obs d in
-  let o' := gd_doc_walk_obs_old d in
+   diagnostic: none from validate_unused_variables / validate_fragments_used, none from validate_selection_set)
+   and changes nothing else of what the guarded walks report *)
+Theorem C21_defer_repair_conservative : forall (ty : vs_typing) (d : document),
+  let o := gd_doc_walk_obs ty d in
+  let o' := gd_doc_walk_obs_old ty d in
   gwo_used_limit o = gwo_used_limit o' /\ gwo_defer_root o = gwo_defer_root o' /\
   gwo_uncond o = gwo_uncond o' /\ gwo_defer_truncated o = gwo_defer_truncated o' /\
-  gwo_recursion o = (gwo_recursion o' + gd_b2n (gwo_defer_truncated o' && (gwo_used_limit o' =? 0)%N))%N.
+  gwo_sel_limit o = gwo_sel_limit o' /\ gwo_undefined o = gwo_undefined o' /\
+  gwo_recursion o
+  = (gwo_recursion o' + gd_b2n (gwo_defer_truncated o' && (gwo_used_limit o' =? 0)%N && (gwo_sel_limit o' =? 0)%N))%N.
 Proof. exact defer_repair_conservative. Qed.
-Check C21_defer_repair_conservative : forall d : document,
-  let o := gd_doc_walk_obs d in
-  let o' := gd_doc_walk_obs_old d in
+Check C21_defer_repair_conservative : forall (ty : vs_typing) (d : document),
+  let o := gd_doc_walk_obs ty d in
+  let o' := gd_doc_walk_obs_old ty d in
   gwo_used_limit o = gwo_used_limit o' /\ gwo_defer_root o = gwo_defer_root o' /\
   gwo_uncond o = gwo_uncond o' /\ gwo_defer_truncated o = gwo_defer_truncated o' /\
-  gwo_recursion o = (gwo_recursion o' + gd_b2n (gwo_defer_truncated o' && (gwo_used_limit o' =? 0)%N))%N.
+  gwo_sel_limit o = gwo_sel_limit o' /\ gwo_undefined o = gwo_undefined o' /\
+  gwo_recursion o
+  = (gwo_recursion o' + gd_b2n (gwo_defer_truncated o' && (gwo_used_limit o' =? 0)%N && (gwo_sel_limit o' =? 0)%N))%N.
 Print Assumptions C21_defer_repair_conservative.
 
 (* validate_defer BEFORE the repair (gd_doc_walk_obs_old: the results of the walks discarded, `let _ =`): a
    @defer walk stopped by the limit in a document for which no other guarded walk reports anything (former
    finding defer_walk_limit_swallowed; the same document with one fragment less reports the @defer) *)
-Theorem C21_defer_limit_swallowed_old_refuted : exists d : document,
-  let o := gd_doc_walk_obs_old d in
+Theorem C21_defer_limit_swallowed_old_refuted : exists (ty : vs_typing) (d : document),
+  let o := gd_doc_walk_obs_old ty d in
   gwo_defer_truncated o = true /\ gwo_defer_root o = 0%N /\ gwo_recursion o = 0%N /\ gwo_used_limit o = 0%N.
-Proof. exists (ex_defer_doc 10). exact ex_defer_swallowed_old. Qed.
-Check C21_defer_limit_swallowed_old_refuted : exists d : document,
-  let o := gd_doc_walk_obs_old d in
+Proof. exists ex_typing, (ex_defer_doc 10). exact ex_defer_swallowed_old. Qed.
+Check C21_defer_limit_swallowed_old_refuted : exists (ty : vs_typing) (d : document),
+  let o := gd_doc_walk_obs_old ty d in
   gwo_defer_truncated o = true /\ gwo_defer_root o = 0%N /\ gwo_recursion o = 0%N /\ gwo_used_limit o = 0%N.
 Print Assumptions C21_defer_limit_swallowed_old_refuted.
 
 (* non-vacuity of C21_defer_limit_reported: the witness of the former finding, a fragment definition nested
    deeper than the limit (label walk), and a subscription whose other walks already reported the limit *)
 Example C21_defer_limit_reported_nonvacuous :
-  gwo_defer_truncated (gd_doc_walk_obs (ex_defer_doc 10)) = true /\
-  gwo_recursion (gd_doc_walk_obs (ex_defer_doc 10)) = 1%N /\
-  gwo_defer_truncated (gd_doc_walk_obs (ex_label_doc 500)) = true /\
-  gwo_recursion (gd_doc_walk_obs (ex_label_doc 500)) = 1%N /\
-  gwo_defer_truncated (gd_doc_walk_obs (ex_sub_chain_doc 600)) = true /\
-  gwo_recursion (gd_doc_walk_obs (ex_sub_chain_doc 600)) = 2%N.
+  gwo_defer_truncated (gd_doc_walk_obs ex_typing (ex_defer_doc 10)) = true /\
+  gwo_recursion (gd_doc_walk_obs ex_typing (ex_defer_doc 10)) = 1%N /\
+  gwo_defer_truncated (gd_doc_walk_obs ex_typing (ex_label_doc 500)) = true /\
+  gwo_recursion (gd_doc_walk_obs ex_typing (ex_label_doc 500)) = 1%N /\
+  gwo_defer_truncated (gd_doc_walk_obs ex_typing (ex_sub_chain_doc 600)) = true /\
+  gwo_recursion (gd_doc_walk_obs ex_typing (ex_sub_chain_doc 600)) = 2%N.
 Proof. vm_compute. repeat split. Qed.
 
-(* ---- the unguarded recursion: validate_selection_set and its callees nest as deep as (fragments on a
-   spread path) x (nesting of each definition): 50 fragments of 100 nested fields each (every definition far
-   below the parser's limit, every fragment passing the cycle check) give 5052 nested activations, 99
-   fragments 10001 (finding selection_set_recursion_unguarded: the real crate overflows a 1 MiB stack on the
-   first document and an 8 MiB stack at 99 x 400) *)
-Definition ex_deep_doc (nf k : nat) : document :=
-  DOperation OpQuery None [] [] [SSpread (ex_G 0) []]
-  :: map (fun i => DFragment (ex_G i) [81] []
-                             (ex_nest true k (if Nat.ltb (S i) nf then [SSpread (ex_G (S i)) []] else ex_leaf)))
-         (seq 0 nf).
+(* ---- validate_selection_set at the level of a whole document, for EVERY document and schema: each operation
+   whose walk was stopped by the depth limit has its own RecursionError among the diagnostics (by
+   C21_guard_depth_selection_validation nothing else cuts the walk short) *)
+Theorem C21_selection_limit_reported : forall (swallow : bool) (ty : vs_typing) (d : document),
+  let o := gd_doc_walk_obs_with swallow ty d in
+  (gwo_sel_limit o <= gwo_recursion o)%N /\
+  gwo_sel_limit o
+  = fold_right N.add 0%N (map (fun op => gd_b2n (gd_is_limit (snd (vs_doc_walk ty d op)))) (gd_doc_ops d)).
+Proof. exact vs_sel_limit_reported. Qed.
+Check C21_selection_limit_reported : forall (swallow : bool) (ty : vs_typing) (d : document),
+  let o := gd_doc_walk_obs_with swallow ty d in
+  (gwo_sel_limit o <= gwo_recursion o)%N /\
+  gwo_sel_limit o
+  = fold_right N.add 0%N (map (fun op => gd_b2n (gd_is_limit (snd (vs_doc_walk ty d op)))) (gd_doc_ops d)).
+Print Assumptions C21_selection_limit_reported.
 
-Theorem C21_selection_depth_unguarded_refuted : exists (d : document) (depth : nat),
+(* the witnesses of the former finding selection_set_recursion_unguarded under the repaired code: 50 fragments
+   of 100 nested fields (or inline fragments) each are stopped at depth 500 and reported, with or without a
+   schema; 5 fragments of 98 nested fields (depth 496) validate without any recursion diagnostic, of 99 (501) do not *)
+Example C21_selection_limit_reported_nonvacuous :
+  ex_sel_obs ex_typing (ex_deep_doc 50 100) = (2, 1)%N /\ ex_sel_obs vs_no_schema (ex_deep_doc 50 100) = (2, 1)%N /\
+  ex_sel_obs ex_typing (ex_deep_doc_via false 50 100) = (2, 1)%N /\
+  ex_sel_obs ex_typing (ex_deep_doc 5 98) = (0, 0)%N /\ ex_sel_obs ex_typing (ex_deep_doc 5 99) = (2, 1)%N.
+Proof. vm_compute. repeat split. Qed.
+
+(* ---- the recursion BEFORE the repair (gd_vss, Valid/Unguarded.v: no guard): validate_selection_set and its
+   callees nested as deep as (fragments on a spread path) x (nesting of each definition): 50 fragments of 100
+   nested fields each (every definition far below the parser's limit, every fragment passing the cycle check)
+   gave 5052 nested activations, 99 fragments 10001 (former finding selection_set_recursion_unguarded: the
+   crate overflowed a 1 MiB stack on the first document and an 8 MiB stack at 99 x 400) *)
+Theorem C21_selection_depth_unguarded_old_refuted : exists (d : document) (depth : nat),
   gd_doc_vss_depth d = Some depth /\ (depth > 5000)%nat /\
   Forall (fun v => snd v = GvOk) (gd_doc_frag_verdicts d).
 Proof.
   exists (ex_deep_doc 50 100), 5052%nat. split; [vm_compute; reflexivity|split; [apply PeanoNat.Nat.ltb_lt; vm_compute; reflexivity|]].
   vm_compute. repeat constructor.
 Qed.
-Check C21_selection_depth_unguarded_refuted : exists (d : document) (depth : nat),
+Check C21_selection_depth_unguarded_old_refuted : exists (d : document) (depth : nat),
   gd_doc_vss_depth d = Some depth /\ (depth > 5000)%nat /\
   Forall (fun v => snd v = GvOk) (gd_doc_frag_verdicts d).
-Print Assumptions C21_selection_depth_unguarded_refuted.
+Print Assumptions C21_selection_depth_unguarded_old_refuted.
 
 (* ---- non-vacuity: concrete graphs at limit and limit + 1 for every guard *)
 Example C21_nonvacuous :
